@@ -345,6 +345,8 @@ def run(prog, rep, tier, repo):
             else:
                 rep.undecided('textbook', key, info, proof=False)
     rep.floor('textbook', 36, '13 distributions x (pdf|pmf, mean, var)')
+    # ------------------------------------------------------------------ D11 multivariate normal: log-linear normal form of pdf and ln_pdf
+    _mvn_density(prog, rep)
     for kk in eng.visited:
         rep.touch(kk)
     rep.assumptions.append('no cancellation invisible to the scale algebra (e.g. exp(ln x)) in the analysed closed forms')
@@ -503,3 +505,90 @@ def _check_nonneg(prog, rep, f, path, key, name, m):
         rep.undecided('non-negative', key, 'not proved non-negative: ' + problems[0], site_of(f.body), proof=False)
     else:
         rep.ok('non-negative', key, '%s::%s >= 0 on every path (%s)' % (name, m, '; '.join(details)[:200]))
+
+
+def _mvn_density(prog, rep):
+    """ln pdf(x) = -1/2 [ d ln 2pi + ln det(Sigma) + (x-mu)^T Sigma^-1 (x-mu) ] for both MVN::pdf (through its logarithm) and MVN::ln_pdf,
+    decided on the log-linear normal form of the returned closed form; the quadratic form is an atom whose shape is checked separately"""
+    from fractions import Fraction
+    from ..loglin import LogLin, Unread, Inexact, show_form
+    pdb = prog.pdb
+    MV = DS + 'multivariatenormal::MVN'
+    adt = pdb.adts.get(MV)
+    if adt is None:
+        rep.viol('mvn-density', 'mvn-density:MVN', 'MVN disappeared')
+        rep.floor('mvn-density', 2, 'MVN pdf, ln_pdf')
+        return
+    fidx = {fl['name']: i for i, fl in enumerate(adt['variants'][0]['fields'])}
+    want = {('Q',): Fraction(-1, 2), ('d', 'ln2'): Fraction(-1, 2), ('d', 'lnpi'): Fraction(-1, 2), ('lndet',): Fraction(-1, 2)}
+    for meth in ('pdf', 'ln_pdf'):
+        key = 'mvn-density:%s' % meth
+        ks = [k for k, b in pdb.bodies.items() if b.impl and b.impl['self_ty'].endswith('multivariatenormal::MVN') and b.impl['trait'] == DS + 'Continuous'
+              and b.name == meth and b.kind != 'closure']
+        if not ks:
+            rep.undecided('mvn-density', key, 'method not found', proof=False)
+            continue
+        f = prog.func(ks[0])
+        rep.touch(ks[0])
+        me = ('arg', 1, f.names.get(1))
+        x = ('arg', 2, f.names.get(2))
+        quad_problems = []
+
+        def atom(t, me=me, x=x, f=f, quad_problems=quad_problems):
+            if t == ('len', x):
+                return 'd'
+            if tag(t) == 'len' and tag(t[1]) == 'field' and t[1][1] == me and t[1][2] == fidx.get('mean'):
+                return 'd'
+            if tag(t) == 'call' and short(t[1]) == 'len' and t[2] and tag(t[2][0]) == 'field' and t[2][0][1] == me and t[2][0][2] == fidx.get('mean'):
+                return 'd'
+            if tag(t) == 'field' and t[1] == me and t[2] == fidx.get('covariance_determinant'):
+                return 'det'
+            if tag(t) == 'call' and short(t[1]) == 't_dot' and len(t[2]) == 2:
+                a_, b_ = t[2]
+                if tag(b_) == 'call' and short(b_[1]) == 'dot' and len(b_[2]) == 2:
+                    m_, a2 = b_[2]
+                    if not (tag(m_) == 'field' and m_[1] == me and m_[2] == fidx.get('inverse_covariance_matrix')):
+                        quad_problems.append('the quadratic form uses %s, not the inverse covariance' % show(m_)[:40])
+                    if a_ != a2:
+                        quad_problems.append('the quadratic form multiplies two different vectors')
+                    # a_ = x - mean elementwise
+                    okc = False
+                    z = a_
+                    while tag(z) == 'call' and short(z[1]) in ('collect', 'from', 'into') and z[2]:
+                        z = z[2][0]
+                    if tag(z) == 'call' and short(z[1]) == 'map' and tag(z[2][1]) == 'agg' and z[2][1][1] == 'closure':
+                        g = prog.func(z[2][1][2])
+                        rv = g.return_values() if g is not None else []
+                        if len(rv) == 1 and tag(rv[0]) == 'bin' and rv[0][1] == 'Sub':
+                            rhs = [q for q in subterms(rv[0][3]) if tag(q) == 'field' and q[2] == fidx.get('mean')]
+                            lhs_mean = [q for q in subterms(rv[0][2]) if tag(q) == 'field' and q[2] == fidx.get('mean')]
+                            okc = bool(rhs) and not lhs_mean
+                    if not okc:
+                        quad_problems.append('unread:the centred vector is not read as x[i] - mean[i]')
+                    return 'Q'
+            return None
+        ll = LogLin(atom)
+        rets = f.return_values()
+        if len(rets) != 1:
+            rep.undecided('mvn-density', key, 'several return sites', site_of(f.body), proof=False)
+            continue
+        try:
+            form = ll.log(rets[0]) if meth == 'pdf' else ll.lin(rets[0])
+        except Inexact as e:
+            rep.viol('mvn-density', key, '%s: %s; the exponent of 2*pi must be exactly d/2 (odd dimensions lose a factor sqrt(2*pi))' % (meth, e), site_of(f.body))
+            continue
+        except Unread as e:
+            rep.undecided('mvn-density', key, 'closed form not read: %s' % e, site_of(f.body), proof=False)
+            continue
+        hard = [q for q in quad_problems if not q.startswith('unread:')]
+        if hard:
+            rep.viol('mvn-density', key, '%s: %s' % (meth, '; '.join(sorted(set(hard)))), site_of(f.body))
+        elif form != want:
+            rep.viol('mvn-density', key, 'ln %s = %s, the multivariate normal log-density is %s' % (
+                'pdf' if meth == 'pdf' else 'ln_pdf = exp', show_form(form), show_form(want)) if meth == 'pdf' else
+                'ln_pdf = %s, the multivariate normal log-density is %s' % (show_form(form), show_form(want)), site_of(f.body))
+        elif quad_problems:
+            rep.undecided('mvn-density', key, '; '.join(q.split(':', 1)[1] for q in quad_problems), site_of(f.body), proof=False)
+        else:
+            rep.ok('mvn-density', key, 'ln %s = %s' % (meth if meth == 'pdf' else 'exp(ln_pdf)', show_form(form)))
+    rep.floor('mvn-density', 2, 'MVN pdf, ln_pdf')
